@@ -45,6 +45,9 @@ pub struct Case {
     pub terminal: u16,
     pub max_redirections: u32,
     pub follow: bool,
+    /// an http proxy is configured: plain-http hops are sent to it with the hop's URL as absolute-form target (https hops go direct)
+    #[serde(default)]
+    pub via_proxy: bool,
 }
 
 pub struct C09;
@@ -199,13 +202,14 @@ final outcome. non-trivial = >= 2 requests, or the bound hit exactly, or a relat
         let terminal = prop_oneof![Just(200u16), Just(204), Just(404), Just(500), Just(201)];
         prop_oneof![
             6 => (start.clone(), proptest::collection::vec(hop, 0..10), terminal.clone(), 0u32..9, prop::bool::weighted(0.85))
-                .prop_map(|(start, hops, terminal, max_redirections, follow)| Case { start, hops, terminal, max_redirections, follow }),
+                .prop_map(|(start, hops, terminal, max_redirections, follow)| Case { start, hops, terminal, max_redirections, follow, via_proxy: false }),
             // exactly at the bound / one beyond it
             2 => (start.clone(), 0u32..9, proptest::collection::vec(good_hop.clone(), 10), terminal.clone())
-                .prop_map(|(start, max, hops, terminal)| Case { start, hops: hops.into_iter().take(max as usize).collect(), terminal, max_redirections: max, follow: true }),
+                .prop_map(|(start, max, hops, terminal)| Case { start, hops: hops.into_iter().take(max as usize).collect(), terminal, max_redirections: max, follow: true, via_proxy: false }),
             2 => (start, 0u32..9, proptest::collection::vec(good_hop, 10), terminal)
-                .prop_map(|(start, max, hops, terminal)| Case { start, hops: hops.into_iter().take(max as usize + 1).collect(), terminal, max_redirections: max, follow: true }),
+                .prop_map(|(start, max, hops, terminal)| Case { start, hops: hops.into_iter().take(max as usize + 1).collect(), terminal, max_redirections: max, follow: true, via_proxy: false }),
         ]
+        .prop_flat_map(|c| prop::bool::weighted(0.25).prop_map(move |via_proxy| Case { via_proxy, ..c.clone() }))
         .boxed()
     }
 
@@ -289,7 +293,7 @@ final outcome. non-trivial = >= 2 requests, or the bound hit exactly, or a relat
             Ok(Box::new(t) as Box<dyn Transport>)
         });
         let res = attohttpc::get(start.render())
-            .proxy_settings(no_proxy())
+            .proxy_settings(if case.via_proxy { attohttpc::ProxySettings::builder().http_proxy(url::Url::parse("http://proxy.test:3128").unwrap()).build() } else { no_proxy() })
             .max_redirections(case.max_redirections)
             .follow_redirects(case.follow)
             .send();
@@ -314,6 +318,18 @@ final outcome. non-trivial = >= 2 requests, or the bound hit exactly, or a relat
                 Err(e) => return Outcome::fail("C09:malformed-request", format!("request #{n}: {e}")),
             };
             let scheme = if u.https { "https" } else { "http" };
+            if case.via_proxy && !u.https {
+                ctx.label("hop-through-http-proxy");
+                let abs1 = u.render();
+                let abs2 = format!("http://{}:{}{}", u.host, u.port, u.target());
+                if dial.host != "proxy.test" || dial.port != 3128 || (req.target != abs1 && req.target != abs2) {
+                    return Outcome::fail(
+                        "C09:wrong-hop-target",
+                        format!("request #{n} went to {}:{} with target {} but the proxy is proxy.test:3128 and the Location of hop {} resolves to {abs1}", dial.host, dial.port, req.target, n.saturating_sub(1)),
+                    );
+                }
+                continue;
+            }
             if dial.host.to_ascii_lowercase() != u.host || dial.port != u.port || dial.scheme != scheme || req.target != u.target() {
                 return Outcome::fail(
                     "C09:wrong-hop-target",
